@@ -22,6 +22,8 @@ func checkC08(c *Ctx, r *Report) {
 	r.rule("C08.SIB", "inline fragments and fragment spreads use the same set of applicability tests")
 	r.rule("C08.META", "who-may-write Object.meta: frozen table; every write outside construction is write-once")
 	r.rule("C08.BIND", "the Go field/method binding of a FieldDef is computed from the object type that owns that FieldDef")
+	importRules(c, r, "C01", "C08.TYPENAME", "__typename stores Name() of the type the value is resolved as (C01.TYPENAME): the dispatcher hands the concrete member type to the selection walker, so the name reported and the fragments that apply agree", "C01.TYPENAME")
+	c08OneBinding(c, r)
 	a := c.anchors()
 	if !requireAnchors(r, "C08.DISPATCH", a) {
 		return
@@ -377,4 +379,88 @@ func c08Bind(c *Ctx, r *Report) {
 		}
 	}
 	r.floor("C08.BIND", "calls to the field binder", n, 3)
+}
+
+// c08OneBinding: Object.meta is the only record of which Go type is bound to which object type. A second
+// record derived from it (an index from Go type to object type kept on the Root, a copy on another
+// struct) goes stale whenever one of the writers of Object.meta does not refresh it, and values of a
+// type bound since are then no longer resolved by their concrete type.
+func c08OneBinding(c *Ctx, r *Report) {
+	r.rule("C08.ONEBIND", "a struct field other than Object.meta (and the set-up-time Input.meta) whose type mentions reflect.Type is written only if every function that stores Object.meta also stores it: a derived record of the bindings is refreshed by every binder")
+	mentions := func(t types.Type) bool {
+		var walk func(t types.Type, d int) bool
+		walk = func(t types.Type, d int) bool {
+			if d > 4 {
+				return false
+			}
+			switch u := t.(type) {
+			case *types.Named:
+				if u.Obj().Pkg() != nil && u.Obj().Pkg().Path() == "reflect" && u.Obj().Name() == "Type" {
+					return true
+				}
+				return false
+			case *types.Pointer:
+				return walk(u.Elem(), d+1)
+			case *types.Slice:
+				return walk(u.Elem(), d+1)
+			case *types.Map:
+				return walk(u.Key(), d+1) || walk(u.Elem(), d+1)
+			}
+			return false
+		}
+		return walk(t, 0)
+	}
+	allowed := map[string]string{"Object.meta": "the binding itself", "Input.meta": "input objects: bound by RegisterType at set-up time"}
+	r.Tables["C08.ONEBIND allowed"] = allowed
+	n := 0
+	// who stores which field
+	storers := map[string]map[*ssa.Function]bool{}
+	for _, fn := range c.allFns {
+		for _, b := range fn.Blocks {
+			for _, in := range b.Instrs {
+				if st, ok := in.(*ssa.Store); ok {
+					if fa, ok := st.Addr.(*ssa.FieldAddr); ok {
+						o, f := fieldOwner(fa.X.Type(), fa.Field)
+						if storers[o+"."+f] == nil {
+							storers[o+"."+f] = map[*ssa.Function]bool{}
+						}
+						storers[o+"."+f][fn] = true
+					}
+				}
+			}
+		}
+	}
+	for _, fn := range c.allFns {
+		for _, b := range fn.Blocks {
+			for _, in := range b.Instrs {
+				st, ok := in.(*ssa.Store)
+				if !ok {
+					continue
+				}
+				fa, ok := st.Addr.(*ssa.FieldAddr)
+				if !ok {
+					continue
+				}
+				ft := fa.Type().(*types.Pointer).Elem()
+				if !mentions(ft) {
+					continue
+				}
+				o, f := fieldOwner(fa.X.Type(), fa.Field)
+				n++
+				_, ok2 := allowed[o+"."+f]
+				if !ok2 {
+					// a derived record is in step with the binding when every writer of Object.meta also rewrites it
+					ok2 = true
+					for w := range storers["Object.meta"] {
+						if !storers[o+"."+f][w] {
+							ok2 = false
+						}
+					}
+				}
+				r.check("C08.ONEBIND", fmt.Sprintf("%s: store to %s.%s", fnName(fn), o, f), st.Pos(), ok2,
+					"a second record of Go-type bindings is kept next to Object.meta: a binding made by another writer of Object.meta (a union member bound by name or @go) is not reflected in it, and later values of that Go type under an interface-typed field resolve to null fields")
+			}
+		}
+	}
+	r.floor("C08.ONEBIND", "stores to fields holding Go types", n, 2)
 }
